@@ -99,22 +99,22 @@ def rule2_nullable(ctx, v):
 
 
 # --------------------------------------------------------------------- C01.3
-def rule3_publish(ctx, v):
-    ctx.doc('C01.3', 'in myth_create_ex_body every descriptor field of the new thread (result=arg, status, join_thread, '
+def rule3_publish(ctx, v, rule='C01.3', only=None):
+    ctx.doc(rule, 'in myth_create_ex_body every descriptor field of the new thread (result=arg, status, join_thread, '
             'detached, env, stack, context.rsp, tls root; entry_func on the parent-first branch) is stored on every '
             'path before the thread is published (child-first: the switch; parent-first: myth_queue_push) and no '
             'field of it is stored after publication')
     f = ctx.need_fn(v, 'myth_create_ex_body')
     news = call_sites(f, 'get_new_myth_thread_struct_desc')
-    ctx.ob('C01.3', 'myth_create_ex_body: allocates descriptor', len(news) == 1, 'one descriptor allocation', loc=f.loc)
+    ctx.ob(rule, 'myth_create_ex_body: allocates descriptor', len(news) == 1, 'one descriptor allocation', loc=f.loc)
     if len(news) != 1:
         return
     nt = news[0].id
     sw = [s for s in switch_sites(f) if s.is_swap]
     pushes = [p for p in call_sites(f, 'myth_queue_push') if f.sources(p.args[1]) == f.sources(nt)]
-    ctx.ob('C01.3', 'myth_create_ex_body: child-first publication', len(sw) == 1 and sw[0].callback == 'myth_create_1',
+    ctx.ob(rule, 'myth_create_ex_body: child-first publication', len(sw) == 1 and sw[0].callback == 'myth_create_1',
            'child-first branch switches to the new context running myth_create_1', loc=f.loc)
-    ctx.ob('C01.3', 'myth_create_ex_body: parent-first publication', len(pushes) == 1,
+    ctx.ob(rule, 'myth_create_ex_body: parent-first publication', len(pushes) == 1,
            'parent-first branch pushes the new thread on the run queue', loc=f.loc)
     pubs = [('child-first', s.ins) for s in sw] + [('parent-first', p) for p in pushes]
     stores = {}
@@ -125,45 +125,48 @@ def rule3_publish(ctx, v):
                 key = ap.fields[0] if not (len(ap.fields) > 1 and ap.fields[0] in (TH + 'context', TH + 'tls')) \
                     else ap.fields[0] + '/' + ap.fields[-1].split('.')[-1]
                 stores.setdefault(key, []).append(st)
-    need = [TH + 'result', TH + 'status', TH + 'join_thread', TH + 'detached', TH + 'env', TH + 'stack',
+    need_all = [TH + 'result', TH + 'status', TH + 'join_thread', TH + 'detached', TH + 'env', TH + 'stack',
             TH + 'context/rsp', TH + 'tls/root', TH + 'cancelled', TH + 'cancel_enabled']
+    need = [x for x in need_all if only is None or x in only]
     entry = f.entry_inst()
     for kind, pub in pubs:
-        req = need + ([TH + 'entry_func'] if kind == 'parent-first' else [])
+        req = need + ([TH + 'entry_func'] if kind == 'parent-first' and only is None else [])
         for fld in req:
             sts = stores.get(fld, [])
             ok = bool(sts) and pub not in f.reachable_from(entry, blocked=sts, include_start=True)
-            ctx.ob('C01.3', 'myth_create_ex_body: %s initialised before %s publication' % (fld.split('.', 1)[1], kind),
+            ctx.ob(rule, 'myth_create_ex_body: %s initialised before %s publication' % (fld.split('.', 1)[1], kind),
                    ok, 'new_thread->%s is written on every path before the thread becomes visible to other workers'
                    % fld.split('.', 1)[1], loc=pub.loc,
                    trace=[] if ok else lib.lines(f.witness_path(entry, [pub], blocked=sts)))
         late = [st for sts in stores.values() for st in sts if f.can_reach(pub, st)]
-        ctx.ob('C01.3', 'myth_create_ex_body: no descriptor write after %s publication' % kind, not late,
+        ctx.ob(rule, 'myth_create_ex_body: no descriptor write after %s publication' % kind, not late,
                'the creator does not write the descriptor after publishing it (the child may already run or be '
                'finished)', loc=(late[0].loc if late else pub.loc))
+    if only is not None:
+        return
     # result holds the argument
     arg = f.param_named('arg')
     okr = any(same_value(f, st.ops[0], arg) for st in stores.get(TH + 'result', []))
-    ctx.ob('C01.3', 'myth_create_ex_body: result slot carries arg', okr,
+    ctx.ob(rule, 'myth_create_ex_body: result slot carries arg', okr,
            'the argument is handed to the child through new_thread->result', loc=f.loc)
     fp = f.param_named('func')
     for st in stores.get(TH + 'entry_func', []):
-        ctx.ob('C01.3', 'myth_create_ex_body: entry_func = func', same_value(f, st.ops[0], fp),
+        ctx.ob(rule, 'myth_create_ex_body: entry_func = func', same_value(f, st.ops[0], fp),
                'parent-first entry function is the func parameter', loc=st.loc)
     for s in sw:
         a1, a2, a3 = s.cb_args
-        ctx.ob('C01.3', 'myth_create_ex_body: callback receives (env, func, new_thread)',
+        ctx.ob(rule, 'myth_create_ex_body: callback receives (env, func, new_thread)',
                a2 is not None and same_value(f, a2, fp) and a3 is not None and f.sources(a3) == f.sources(nt),
                'myth_create_1 gets the function and the new descriptor', loc=s.ins.loc)
         to = s.to_ctx()
         okto = to is not None and f.ap(to).fields[-1:] == [TH + 'context'] and f.sources(f.ap(to).root) == f.sources(nt)
-        ctx.ob('C01.3', 'myth_create_ex_body: switches to the new context', okto,
+        ctx.ob(rule, 'myth_create_ex_body: switches to the new context', okto,
                'the target of the switch is new_thread->context', loc=s.ins.loc)
         frm = s.from_ctx()
         okfrom = frm is not None and is_load_of(f, f.ap(frm).root, 'myth_running_env.this_thread')
-        ctx.ob('C01.3', 'myth_create_ex_body: saves the parent context', okfrom,
+        ctx.ob(rule, 'myth_create_ex_body: saves the parent context', okfrom,
                'the context saved is env->this_thread->context (the parent continuation)', loc=s.ins.loc)
-    ctx.floor('C01.3', 28)
+    ctx.floor(rule, 28 if only is None else 2 * len(only))
 
 
 # --------------------------------------------------------------------- C01.4
